@@ -1,12 +1,14 @@
 """C05 - merging is local."""
 from ..mutate import Mutant, in_func
 from . import mergerules as mr
+from . import mergetrace as mt
 from . import pathrules as pr
 
 from .common import Guard  # noqa: E402
 
 PROP = 'C05'
 DECIDED = [
+    'R1c: each pruning predicate compares the entry it decides with the node found by one lookup of that entry\'s own path in the opposite tree (no cached / re-descended counterpart).',
     'R1: over every on_merge_impl / on_premerge_impl in the package, the absolute path threaded through the recursion is used for lookups only on the merge root; lookups inside the nodes being merged use paths relative to them (path-base typing); removed-set and new-path walk share one base.',
     'R2: the recursion passes path + [key] (not path, not [key]) and the loop key to the child merge.',
 ]
@@ -17,6 +19,7 @@ def check(repo, run, tier):
     g = Guard()
     g(pr.typed_lookups, repo, run, 'C05.R1')
     g(pr.removed_set_bases, repo, run, 'C05.R1')
+    g(mt.counterpart_lookup, repo, run, 'C05.R1c')
     g(mr.key_loop_paths, repo, run, 'C05.R2')
     g.done()
 
